@@ -5,8 +5,9 @@ pub fn scenario_by_name(name: &str) -> Option<Box<dyn Scenario>> {
     match name {
         "tx-history" | "C04" => Some(Box::new(crate::scen_txhist::TxHistory)),
         "interp-driver" | "C16" => Some(Box::new(crate::scen_interp::InterpDriver)),
+        "artefact-medium" | "C09" => Some(Box::new(crate::scen_artefact::ArtefactMedium)),
         _ => None,
     }
 }
 
-pub const ALL: &[(&str, &str)] = &[("C04", "tx-history"), ("C16", "interp-driver")];
+pub const ALL: &[(&str, &str)] = &[("C04", "tx-history"), ("C16", "interp-driver"), ("C09", "artefact-medium")];
